@@ -352,14 +352,30 @@ vf::CaseResult run_case(const std::string &id, const Program &prog, Stats &st) {
       auto before = S.tets();
       size_t nf = S.m.n_faces(), nc = S.m.n_cells(), ne = S.m.n_edges();
       ++S.rejected;
-      if (a[0] % 3 == 0) {
+      if (a[0] % 4 == 3) {
+        // closed halfedge loop of the wrong length (2, 4 or 5) through the halfedge-list overload, with and without check
+        int k = (a[2] & 1) ? 4 + ((a[2] >> 2) & 1) : 2;
+        std::vector<VertexHandle> vs;
+        for (int j = 0; j < k; ++j) vs.push_back(pickv(a[1] + j));
+        std::set<int> d; for (auto v : vs) d.insert(v.idx());
+        if (d.size() != vs.size()) break;
+        std::vector<HalfEdgeHandle> hes;
+        for (int j = 0; j < k; ++j) {
+          VertexHandle x = vs[(size_t)j], y = vs[(size_t)(j + 1) % (size_t)k];
+          EdgeHandle e = S.m.add_edge(x, y);
+          hes.push_back(S.m.halfedge_handle(e, S.m.edge(e).from_vertex() == x ? 0 : 1));
+        }
+        ne = S.m.n_edges();
+        if (S.m.add_face(hes, a[2] & 2).is_valid()) S.setfail("add_face with a closed loop of " + std::to_string(k) + " halfedges accepted by the tetrahedral kernel");
+        annot = "add_face(halfedge loop of wrong valence)";
+      } else if (a[0] % 4 == 0) {
         std::vector<VertexHandle> vs{pickv(a[1]), pickv(a[1] + 1)};
         if (a[2] & 1) { vs.push_back(pickv(a[1] + 2)); vs.push_back(pickv(a[1] + 3)); }
         std::set<int> d; for (auto v : vs) d.insert(v.idx());
         if (d.size() != vs.size()) break;
         if (S.m.add_face(vs).is_valid()) S.setfail("add_face with " + std::to_string(vs.size()) + " vertices accepted by the tetrahedral kernel");
         annot = "add_face(vertices of wrong valence)";
-      } else if (a[0] % 3 == 1) {
+      } else if (a[0] % 4 == 1) {
         std::vector<VertexHandle> vs;
         for (int j = 0; j < 3 + 2 * (a[2] & 1); ++j) vs.push_back(pickv(a[1] + j));
         if (S.m.add_cell(vs, a[2] & 2).is_valid()) S.setfail("add_cell with " + std::to_string(vs.size()) + " vertices accepted by the tetrahedral kernel");
@@ -444,6 +460,11 @@ vf::CaseResult run_case(const std::string &id, const Program &prog, Stats &st) {
       if (id == "C03" && c03) { res.ok = false; res.msg = oneline(S.fail.substr(11)); }
       else st.count(c03 ? "discarded_prereq_C03" : "discarded_prereq_C01");
     } else if (id == "C15") { res.ok = false; res.msg = oneline(S.fail); }
+    // run under C11 (construction validates, tetrahedral kernel): only the acceptance / rejection verdicts count
+    else if (id == "C11" && (S.fail.find("accepted by the tetrahedral kernel") != std::string::npos || S.fail.find("rejected call changed the mesh") != std::string::npos ||
+                             S.fail.find("rejected add changed the cells") != std::string::npos || S.fail.find("valid tetrahedron rejected") != std::string::npos ||
+                             S.fail.find("cells afterwards are not the former cells plus") != std::string::npos)) { res.ok = false; res.msg = oneline(S.fail); }
+    else st.count("discarded_owner_C15");
   }
   return res;
 }
